@@ -117,6 +117,8 @@ struct resolver_run
 			json::object e; e["e"] = "Cancel"; e["t"] = t; e["destroy"] = true;
 			rec.emit(e);
 			in_api = true; res.reset(); in_api = false;
+			// the program carries on with a fresh resolver (same state as after cancel())
+			if (!o.name.empty() || o.t >= 0) res.reset(new resolver_t(*ios));
 		}
 	}
 
@@ -161,7 +163,7 @@ struct resolver_run
 		try { sim->run(); } catch (livelock_error const&) {}
 		if (destroy_at_end && res && !livelock)
 		{
-			op d{"destroy", "", 0, 0};
+			op d{"destroy", "", -1, 0};
 			do_op(d);
 			try { sim->run(); } catch (livelock_error const&) {}
 		}
